@@ -209,4 +209,74 @@ mod verif_methods {
 		let u = up.next(&(a2, b2));
 		assert!((u == Action::BUY_ALL) == ((a1 - b1) < 0.0 && (a2 - b2) >= 0.0));
 	}
+
+	// ---- reversal detectors ----
+	// (left, right) = (1, 1): fires exactly one step after a value that is >= its older and > its newer neighbour; 6 symbolic steps
+	#[kani::proof]
+	#[kani::unwind(10)]
+	fn vk_reversal_upper_l3() {
+		let x0 = letter();
+		let mut m = UpperReversalSignal::new(1, 1, &x0).unwrap();
+		let mut h = [x0; 3];
+		let mut k = 0;
+		while k < 6 {
+			let x = letter();
+			h = [h[1], h[2], x];
+			let s = m.next(&x);
+			if k >= 3 {
+				let peak = h[1] >= h[0] && h[1] > h[2];
+				assert!((s == Action::BUY_ALL) == peak);
+			}
+			assert!(s == Action::BUY_ALL || s.is_none());
+			k += 1;
+		}
+	}
+	#[kani::proof]
+	#[kani::unwind(10)]
+	fn vk_reversal_lower_l3() {
+		let x0 = letter();
+		let mut m = LowerReversalSignal::new(1, 1, &x0).unwrap();
+		let mut h = [x0; 3];
+		let mut k = 0;
+		while k < 6 {
+			let x = letter();
+			h = [h[1], h[2], x];
+			let s = m.next(&x);
+			if k >= 3 {
+				let trough = h[1] <= h[0] && h[1] < h[2];
+				assert!((s == Action::BUY_ALL) == trough);
+			}
+			k += 1;
+		}
+	}
+	// a concrete zigzag much longer than PeriodType::MAX: every peak must still be reported (C07/C14 known finding: it is not)
+	#[kani::proof]
+	#[kani::unwind(305)]
+	fn vk_reversal_long_stream() {
+		let mut m = UpperReversalSignal::new(1, 1, &0.0).unwrap();
+		let mut k: u32 = 0;
+		while k < 300 {
+			let x = if k % 2 == 0 { 1.0 } else { 0.0 };
+			let s = m.next(&x);
+			if k >= 3 {
+				assert!((s == Action::BUY_ALL) == (k % 2 == 1));
+			}
+			k += 1;
+		}
+	}
+	// the same zigzag up to the step at which the position counter reaches its capacity: must hold
+	#[kani::proof]
+	#[kani::unwind(260)]
+	fn vk_reversal_long_stream_guarded() {
+		let mut m = UpperReversalSignal::new(1, 1, &0.0).unwrap();
+		let mut k: u32 = 0;
+		while k < 255 {
+			let x = if k % 2 == 0 { 1.0 } else { 0.0 };
+			let s = m.next(&x);
+			if k >= 3 {
+				assert!((s == Action::BUY_ALL) == (k % 2 == 1));
+			}
+			k += 1;
+		}
+	}
 }
